@@ -24,9 +24,9 @@ from vf import common, tlc, evidence
 from checks import bobbuild_common as bc
 
 PROP = "C05"
-WEAK = ["PruneBeforeReset", "NoInvalidateBeforeRun", "CommitInputsBeforeRun", "NoPruneOnDigestChange"]
+WEAK = ["PruneBeforeReset", "NoInvalidateBeforeRun", "CommitInputsBeforeRun", "NoPruneOnDigestChange", "CheckoutStateBeforeRun"]
 ACTIONS = ["Edit", "Begin", "End", "Kill", "PrepStart", "PrepInval", "PrepPrune", "PrepReset", "PrepDone",
-           "CoStart", "CoForge", "CoRun", "CoCommit", "CoSetRes", "BuStart", "BuInval", "BuPrune", "BuReset",
+           "CoStart", "CoReason", "CoStore", "CoForge", "CoRun", "CoRunFail", "CoRunKilled", "CoCommit", "CoSetRes", "BuStart", "BuInval", "BuPrune", "BuReset",
            "BuSkip", "BuInv1", "BuInv2", "BuRunOk", "BuRunFail", "BuRunKilled", "BuC1", "BuC2", "BuC3",
            "PkStart", "PkSkip", "PkInv1", "PkInv2", "PkRunOk", "PkRunFail", "PkRunKilled", "PkC1", "PkC2", "PkC3"]
 
